@@ -23,6 +23,15 @@ theorem getElem?_lt {α} {l : List α} {i : Nat} {a : α} (h : l[i]? = some a) :
   · exact h'
   · rw [List.getElem?_eq_none h'] at h; cases h
 
+theorem toFixup_none_eq {g : GRef} {f : Fixup} (h : g.toFixup none = f) : f.lr = none ∧ g = f.toG g.label := by
+  subst h; cases g; exact ⟨rfl, rfl⟩
+
+theorem toFixup_some_eq {g : GRef} {f : Fixup} {l : Nat} (h : g.toFixup (some g.label) = { f with lr := some l }) : g = f.toG l := by
+  cases g; cases f
+  simp only [GRef.toFixup, Fixup.mk.injEq, Option.some.injEq] at h
+  obtain ⟨h1, h2, h3, h4, h5⟩ := h
+  subst h1 h2 h3 h4 h5; rfl
+
 /-- **the reference-site step.** `s1` satisfies the invariant; a fixup for the word at the end of the current section
 is created and `tail` (which contains that word, with a zero field) is emitted. -/
 theorem inv_newFixup_emit (s1 : State) (h : Inv s1) (l : Nat) (f : Fixup) (tail : Bytes)
@@ -55,7 +64,7 @@ theorem inv_newFixup_emit (s1 : State) (h : Inv s1) (l : Nat) (f : Fixup) (tail 
         · show ∀ g ∈ logRef s1.ghost l f, _; rw [hlog]; intro g hg; exact (h.inb g hg).ext hext
         · show (logRef s1.ghost l f).Pairwise D; rw [hlog]; exact h.disj
         · show ∀ g ∈ logRef s1.ghost l f, _; rw [hlog]; intro g hg
-          refine status_mono ?_ ?_ (field_ext hext (h.inb g hg)) (h.status g hg)
+          refine status_mono ?_ ?_ ?_ (field_ext hext (h.inb g hg)) (h.status g hg)
           · rintro (⟨fx', h1, h2⟩ | h1)
             · left
               by_cases hgl : l = g.label
@@ -63,6 +72,18 @@ theorem inv_newFixup_emit (s1 : State) (h : Inv s1) (l : Nat) (f : Fixup) (tail 
                 rw [hl] at h1; cases h1
                 exact ⟨f :: fx, by simp [getElem?_lt hl], List.mem_cons_of_mem _ h2⟩
               · exact ⟨fx', by show (s1.labels.set l _)[g.label]? = _; rw [List.getElem?_set_ne hgl]; exact h1, h2⟩
+            · exact .inr h1
+          · rintro (⟨fx', h1, h2⟩ | h1)
+            · replace h1 : (s1.labels.set l (LabelEntry.unbound (f :: fx)))[g.label]? = some (LabelEntry.unbound fx') := h1
+              by_cases hgl : l = g.label
+              · rw [← hgl, show (s1.labels.set l (LabelEntry.unbound (f :: fx)))[l]? = some (LabelEntry.unbound (f :: fx)) by simp [getElem?_lt hl]] at h1
+                cases h1
+                simp only [List.mem_cons] at h2
+                rcases h2 with h2 | h2
+                · have := (toFixup_none_eq h2).1; rw [hlr] at this; cases this
+                · exact .inl ⟨fx, by rw [← hgl]; exact hl, h2⟩
+              · rw [List.getElem?_set_ne hgl] at h1
+                exact .inl ⟨fx', h1, h2⟩
             · exact .inr h1
           · intro sec off hb
             exact bound_after_set _ _ _ _ hl _ _ _ hb
@@ -129,7 +150,7 @@ theorem inv_newFixup_emit (s1 : State) (h : Inv s1) (l : Nat) (f : Fixup) (tail 
         · show ∀ g ∈ logRef s1.ghost l f, _; rw [hlog]; intro g hg
           simp only [List.mem_append, List.mem_singleton] at hg
           rcases hg with hg | rfl
-          · refine status_mono ?_ ?_ (field_ext hext (h.inb g hg)) (h.status g hg)
+          · refine status_mono ?_ ?_ ?_ (field_ext hext (h.inb g hg)) (h.status g hg)
             · rintro (⟨fx', h1, h2⟩ | h1)
               · left
                 by_cases hgl : l = g.label
@@ -137,6 +158,20 @@ theorem inv_newFixup_emit (s1 : State) (h : Inv s1) (l : Nat) (f : Fixup) (tail 
                   rw [hl] at h1; cases h1
                   exact ⟨f :: fx, hget, List.mem_cons_of_mem _ h2⟩
                 · exact ⟨fx', by show (s1.labels.set l _)[g.label]? = _; rw [List.getElem?_set_ne hgl]; exact h1, h2⟩
+              · exact .inr h1
+            · rintro (⟨fx', h1, h2⟩ | h1)
+              · replace h1 : (s1.labels.set l (LabelEntry.unbound (f :: fx)))[g.label]? = some (LabelEntry.unbound fx') := h1
+                by_cases hgl : l = g.label
+                · rw [← hgl, hget] at h1; cases h1
+                  simp only [List.mem_cons] at h2
+                  rcases h2 with h2 | h2
+                  · have e : g = f.toG l := by rw [hgl]; exact (toFixup_none_eq h2).2
+                    have hd := hDnew g hg
+                    rw [← e] at hd
+                    exact absurd hd (D_irrefl (fmt_size_pos (h.fmts g hg)).1)
+                  · exact .inl ⟨fx, by rw [← hgl]; exact hl, h2⟩
+                · rw [List.getElem?_set_ne hgl] at h1
+                  exact .inl ⟨fx', h1, h2⟩
               · exact .inr h1
             · intro sec off hb
               exact bound_after_set _ _ _ _ hl _ _ _ hb
@@ -190,10 +225,20 @@ theorem inv_newFixup_emit (s1 : State) (h : Inv s1) (l : Nat) (f : Fixup) (tail 
         · show ∀ g ∈ logRef s1.ghost l f, _; rw [hlog]; intro g hg
           simp only [List.mem_append, List.mem_singleton] at hg
           rcases hg with hg | rfl
-          · refine status_mono ?_ ?_ (field_ext hext (h.inb g hg)) (h.status g hg)
+          · refine status_mono ?_ ?_ ?_ (field_ext hext (h.inb g hg)) (h.status g hg)
             · rintro (h1 | h1)
               · exact .inl h1
               · exact .inr (List.mem_cons_of_mem _ h1)
+            · rintro (h1 | h1)
+              · exact .inl h1
+              · replace h1 : g.toFixup (some g.label) ∈ ({ f with lr := some l } : Fixup) :: s1.fixups := h1
+                simp only [List.mem_cons] at h1
+                rcases h1 with h1 | h1
+                · have e := toFixup_some_eq h1
+                  have hd := hDnew g hg
+                  rw [← e] at hd
+                  exact absurd hd (D_irrefl (fmt_size_pos (h.fmts g hg)).1)
+                · exact .inr h1
             · intro _ _ hb; exact hb
           · left
             refine ⟨.inr ?_, hzero⟩
